@@ -1917,7 +1917,8 @@ class EntityDef:
         copy.bases = deepcopy(self.bases, memodict)
         copy.helpers = deepcopy(self.helpers, memodict)
         copy.desc = self.desc
-        copy.resources = self.resources
+        # The () marker for "no @resources block" is immutable and can be shared, a list must not be.
+        copy.resources = self.resources if isinstance(self.resources, tuple) else list(self.resources)
         copy.is_alias = self.is_alias
 
         # Avoid copy for these, we know the tags-map is immutable.
